@@ -2,6 +2,8 @@ package main
 
 import (
 	"fmt"
+	"math/rand"
+	"strconv"
 	"time"
 
 	"github.com/evolbioinfo/gotree/tree"
@@ -12,6 +14,55 @@ func init() { register("C09", c09) }
 // case: ((trees (T ...)) (cutoff q))        q = the decimal threshold as a rational; the worker
 //                                            gives Consensus the nearest float64, as the CLI does
 // obs : ((cutoff64 q) (err "msg") (tree T) (audit (...)))   |   ((hang T))
+// preUse09: the tree was used before: indexed (ReinitIndexes), then edited through the public API
+// without (complete) re-indexing.  (none) | (rename "a" "b") | (setname "a" "b") | (reroot i) | (rotate seed)
+func preUse09(t *tree.Tree, e *Sexp) string {
+	if e == nil || !e.IsList || len(e.List) == 0 || e.List[0].Atom == "none" {
+		return ""
+	}
+	if err := t.ReinitIndexes(); err != nil {
+		return "reinit: " + err.Error()
+	}
+	arg := func(i int) string {
+		if i < len(e.List) {
+			return e.List[i].Atom
+		}
+		return ""
+	}
+	switch e.List[0].Atom {
+	case "rename":
+		if err := t.Rename(map[string]string{arg(1): arg(2), arg(2): arg(1)}); err != nil {
+			return "rename: " + err.Error()
+		}
+	case "setname":
+		var na, nb *tree.Node
+		for _, n := range t.Tips() {
+			if n.Name() == arg(1) {
+				na = n
+			} else if n.Name() == arg(2) {
+				nb = n
+			}
+		}
+		if na != nil && nb != nil {
+			na.SetName(arg(2))
+			nb.SetName(arg(1))
+		}
+	case "reroot":
+		i, _ := strconv.Atoi(arg(1))
+		nodes := t.Nodes()
+		if i < len(nodes) {
+			_ = t.Reroot(nodes[i])
+		}
+	case "rotate":
+		seed, _ := strconv.ParseInt(arg(1), 10, 64)
+		rand.Seed(seed)
+		t.RotateInternalNodes()
+	default:
+		return "unknown edit " + e.List[0].Atom
+	}
+	return ""
+}
+
 func c09(c *Sexp) *Sexp {
 	ts := c.Get("trees")
 	if ts == nil || !ts.IsList {
@@ -24,6 +75,26 @@ func c09(c *Sexp) *Sexp {
 			return L(KV("panic", A(fmt.Sprintf("build tree %d: %v", i, err))))
 		}
 		trees = append(trees, t)
+	}
+	// pre-used input trees: (pres (E ...)); the observation then carries the trees as they are when
+	// Consensus receives them
+	var after *Sexp
+	if pres := c.Get("pres"); pres != nil && pres.IsList {
+		for i, e := range pres.List {
+			if i < len(trees) {
+				if m := preUse09(trees[i], e); m != "" {
+					return L(KV("panic", A(fmt.Sprintf("pres[%d]: %s", i, m))))
+				}
+			}
+		}
+		problems := []string{}
+		after = L()
+		for _, t := range trees {
+			after.List = append(after.List, DumpTree(t, &problems))
+		}
+		if len(problems) > 0 {
+			return L(KV("panic", A("pre-use edit broke the structure: "+problems[0])))
+		}
 	}
 	cutoff := c.Float("cutoff")
 	done := make(chan *Sexp, 1)
@@ -40,6 +111,9 @@ func c09(c *Sexp) *Sexp {
 		close(ch)
 		cons, err := tree.Consensus(ch, cutoff)
 		obs := L(KV("cutoff64", F(cutoff)), KV("err", A(errStr(err))))
+		if after != nil {
+			obs.List = append(obs.List, KV("treesafter", after))
+		}
 		if err == nil {
 			d, audit := ObserveTree(cons)
 			obs.List = append(obs.List, KV("tree", d), KV("audit", audit))
